@@ -753,7 +753,9 @@ pub fn work_dir_path(ctx: &Ctx) -> std::path::PathBuf {
 
 pub fn main(ctx: &Ctx) -> i32 {
     let code = main_inner(ctx);
-    std::fs::remove_dir_all(work_dir_path(ctx)).ok();
+    if std::env::var("RNV_KEEP_WORK").is_err() {
+        std::fs::remove_dir_all(work_dir_path(ctx)).ok();
+    }
     code
 }
 
